@@ -3,6 +3,10 @@
 usage: tools/seed_matrix.py [seed ids...]   (default: all). Writes seeded/<id>/detect.json and seeded/MATRIX.md."""
 import json, os, subprocess, sys, time
 HERE = os.path.dirname(os.path.dirname(os.path.abspath(__file__)))
+# The experiments run on a private copy of /repo (VERIF_REPO) with its own work directory, so that /repo itself is never
+# touched by this tool and normal work on /repo and /verif can go on meanwhile.
+COPY = os.environ.get('SEED_REPO_COPY', '/tmp/repo-seed')
+WORKDIR = os.path.join(HERE, '.work-seed')
 # which checks to try per seed: its own property plus properties sharing the touched mechanism
 EXTRA = {'C03a1': ['C07'], 'C07a1': ['C03'], 'C13a1': ['C01', 'C03'], 'C13a2': ['C04'], 'C04a1': ['C13'], 'C06a1': ['C05'], 'C10a2': ['C01'], 'C15a1': ['C12'], 'C16a2': ['C12', 'C02'],
          'C12a1': ['C02'], 'C12a2': ['C02', 'C16'], 'C14a2': ['C13'], 'C09a2': ['C10', 'C07'], 'C10a1': ['C07'], 'C01a2': ['C07'], 'C02a1': ['C16'], 'C16a1': ['C02', 'C01'], 'C01a1': ['C02'],
@@ -10,15 +14,16 @@ EXTRA = {'C03a1': ['C07'], 'C07a1': ['C03'], 'C13a1': ['C01', 'C03'], 'C13a2': [
 def main():
     claimed = [c['property_id'] for c in json.load(open(os.path.join(HERE, 'MANIFEST.json')))['checks']]
     ids = sys.argv[1:] or sorted(os.listdir(os.path.join(HERE, 'seeded')))
+    subprocess.run(['rm', '-rf', COPY]); os.makedirs(COPY)
+    subprocess.run('git -C /repo archive HEAD | tar -x -C %s && cp /repo/Cargo.lock %s/ && cd %s && git init -q && git add -A && git -c user.email=a@b -c user.name=x commit -qm base' % (COPY, COPY, COPY), shell=True, check=True)
+    env = dict(os.environ, VERIF_REPO=COPY, VERIF_WORK=WORKDIR)
     rows = []
     for sid in ids:
         d = os.path.join(HERE, 'seeded', sid)
         if not os.path.isdir(d): continue
         meta = json.load(open(os.path.join(d, 'meta.json')))
         props = [meta['property']] + EXTRA.get(sid, [])
-        if subprocess.run(['git', '-C', '/repo', 'diff', '--quiet']).returncode != 0:
-            print('/repo has local changes; refusing'); sys.exit(3)
-        ap = subprocess.run(['git', '-C', '/repo', 'apply', os.path.join(d, 'patch.diff')], capture_output=True, text=True)
+        ap = subprocess.run(['git', '-C', COPY, 'apply', os.path.join(d, 'patch.diff')], capture_output=True, text=True)
         if ap.returncode != 0:
             rows.append((sid, meta['property'], 'patch no longer applies', '')); continue
         det = {}
@@ -26,11 +31,11 @@ def main():
             for p in props:
                 if p not in claimed: det[p] = {'exit': None, 'note': 'property not claimed'}; continue
                 t0 = time.time()
-                r = subprocess.run(['./check', p, '--tier', 'quick'], cwd=HERE, capture_output=True, text=True, timeout=3600)
+                r = subprocess.run(['./check', p, '--tier', 'quick', '--no-evidence'], cwd=HERE, capture_output=True, text=True, timeout=3600, env=env)
                 lines = [l for l in r.stdout.splitlines() if l.startswith(('VIOLATION', '  O', 'INCONCLUSIVE'))]
                 det[p] = {'exit': r.returncode, 'seconds': round(time.time() - t0), 'lines': lines[:6]}
         finally:
-            subprocess.run(['git', '-C', '/repo', 'checkout', '--', '.'])
+            subprocess.run(['git', '-C', COPY, 'checkout', '--', '.'])
         json.dump({'seed': sid, 'checked_at_repo_head': subprocess.run(['git', '-C', '/repo', 'rev-parse', '--short', 'HEAD'], capture_output=True, text=True).stdout.strip(), 'results': det},
                   open(os.path.join(d, 'detect.json'), 'w'), indent=1)
         caught = [p for p, x in det.items() if x.get('exit') == 1]
